@@ -97,3 +97,148 @@ def const_val(F, e):
     if nd['k'] == 'int':
         return nd['v']
     return None
+
+
+class NotConst(Exception):
+    pass
+
+
+def consteval(P, F, e, bind, canon):
+    """exact value of integer expression e when the struct fields / variables named in `bind` (canonical string -> int)
+    take the given values; constant static tables are read; anything else raises NotConst"""
+    nd = F.ex[e]
+    k = nd['k']
+    c = nd.get('c', [])
+    if k == 'int':
+        return nd['v']
+    if k == 'cast':
+        return consteval(P, F, c[0], bind, canon)
+    if k in ('member', 'ref', 'sub'):
+        s = canon(F, e)
+        if s in bind:
+            return bind[s]
+        if k == 'sub':
+            b = F.ex[F.strip_casts(c[0])]
+            if b['k'] == 'ref' and b['decl']['kind'] == 'global' and b['decl'].get('const'):
+                idx = consteval(P, F, c[1], bind, canon)
+                for g in P.globals.get(b['decl']['name'], []):
+                    init = g.get('init')
+                    if isinstance(init, dict) and init.get('kind') == 'list' and 0 <= idx < len(init['elems']) \
+                            and isinstance(init['elems'][idx], (int, float)):
+                        return init['elems'][idx]
+        raise NotConst(s)
+    if k == 'un':
+        v = consteval(P, F, c[0], bind, canon)
+        return {'-': -v, '+': v, '~': ~v, '!': int(not v)}.get(nd['op'], None) if nd['op'] in '-+~!' else _nc()
+    if k == 'bin':
+        a = consteval(P, F, c[0], bind, canon)
+        b = consteval(P, F, c[1], bind, canon)
+        op = nd['op']
+        if op == '+': return a + b
+        if op == '-': return a - b
+        if op == '*': return a * b
+        if op == '/':
+            if b == 0: raise NotConst('division by zero')
+            q = abs(a) // abs(b)
+            return q if (a >= 0) == (b >= 0) else -q
+        if op == '%':
+            if b == 0: raise NotConst('division by zero')
+            return a - b * (abs(a) // abs(b) * (1 if (a >= 0) == (b >= 0) else -1))
+        if op == '<<': return a << b
+        if op == '>>': return a >> b
+        if op == '&': return a & b
+        if op == '|': return a | b
+        if op == '^': return a ^ b
+        if op == '<': return int(a < b)
+        if op == '>': return int(a > b)
+        if op == '<=': return int(a <= b)
+        if op == '>=': return int(a >= b)
+        if op == '==': return int(a == b)
+        if op == '!=': return int(a != b)
+        if op == '&&': return int(bool(a) and bool(b))
+        if op == '||': return int(bool(a) or bool(b))
+        raise NotConst(op)
+    if k == 'cond':
+        return consteval(P, F, c[1] if consteval(P, F, c[0], bind, canon) else c[2], bind, canon)
+    raise NotConst(k)
+
+
+def _nc():
+    raise NotConst('operator')
+
+
+def controlling_conditions(F, node):
+    """branch conditions that decide whether `node` is evaluated: [(cond expr id, polarity)] from the dominator chain.
+    polarity True means node is reached only through the true edge."""
+    b0 = F.pos[node][0]
+    dom = cfg.dominators(F)
+    out = []
+    for b in dom.get(b0, ()):
+        if b == b0:
+            continue
+        blk = F.blocks[b]
+        t = blk.get('term')
+        if not t or 'cond' not in t or len(blk['succs']) != 2:
+            continue
+        tr, fa = blk['succs']
+        reach_t = tr is not None and _reaches_without(F, tr, b0, b)
+        reach_f = fa is not None and _reaches_without(F, fa, b0, b)
+        if reach_t and not reach_f:
+            out.append((t['cond'], True))
+        elif reach_f and not reach_t:
+            out.append((t['cond'], False))
+    return out
+
+
+def _reaches_without(F, src, dst, avoid):
+    seen = {avoid}
+    st = [src]
+    while st:
+        x = st.pop()
+        if x == dst:
+            return True
+        if x in seen:
+            continue
+        seen.add(x)
+        for s in F.blocks[x]['succs']:
+            if s is not None and s not in seen:
+                st.append(s)
+    return False
+
+
+def single_defs(F):
+    """local var id -> defining expression id, for locals assigned exactly once (declaration initialiser or one '=')"""
+    defs = {}
+    count = {}
+    for n in F.pos:
+        nd = F.ex[n]
+        if nd['k'] == 'decl':
+            for v in nd['vars']:
+                if 'id' in v and v.get('init'):
+                    defs[v['id']] = v['init']
+                    count[v['id']] = count.get(v['id'], 0) + 1
+        elif nd['k'] == 'assign':
+            l = F.ex[F.strip_casts(nd['c'][0])]
+            if l['k'] == 'ref' and l['decl']['kind'] == 'var':
+                count[l['decl']['id']] = count.get(l['decl']['id'], 0) + (1 if nd['op'] == '=' else 2)
+                defs[l['decl']['id']] = nd['c'][1]
+        elif nd['k'] == 'un' and nd['op'] in ('pre++', 'pre--', 'post++', 'post--'):
+            l = F.ex[F.strip_casts(nd['c'][0])]
+            if l['k'] == 'ref' and l['decl']['kind'] == 'var':
+                count[l['decl']['id']] = count.get(l['decl']['id'], 0) + 2
+        elif nd['k'] == 'un' and nd['op'] == '&':
+            l = F.ex[F.strip_casts(nd['c'][0])]
+            if l['k'] == 'ref' and l['decl']['kind'] == 'var':
+                count[l['decl']['id']] = count.get(l['decl']['id'], 0) + 2
+    return {v: e for v, e in defs.items() if count.get(v) == 1}
+
+
+def canon_x(F, e, sk, depth=2, defs=None):
+    """canonical string with single-definition locals replaced by their defining expression (depth levels)"""
+    defs = single_defs(F) if defs is None else defs
+    env = {}
+    if depth > 0:
+        for v, d in defs.items():
+            t = F.vars.get(v, {}).get('t', '')
+            env[v] = '<' + canon_x(F, d, sk, depth - 1, defs) + '>' if depth > 1 else '<' + sk.canon(F, d, {}) + '>'
+    return sk.canon(F, e, env)
